@@ -238,6 +238,17 @@ func (u *universe) make(role string) *AKey {
 	// with that hash, b = second...).
 	want := role[:3]
 	variant := int(role[3] - 'a')
+	if kind == 'C' || kind == 'X' || kind == 'U' {
+		// Closures that golua treats as equal also hash alike (they must, for
+		// value equality and key equality to agree), so their primary slot
+		// cannot be chosen: hand out instances regardless of the wanted hash.
+		if a, b := u.fresh(kind), u.fresh(kind); a.Hash() == b.Hash() {
+			for len(u.pending[want]) <= variant {
+				u.pending[want] = append(u.pending[want], u.candidate(kind))
+			}
+			return u.wrap(role, kind, u.pending[want][variant])
+		}
+	}
 	for {
 		if p := u.pending[want]; len(p) > variant {
 			v := p[variant]
